@@ -616,7 +616,10 @@ class TLSConnection(TLSRecordLayer):
         if serverHello.getExtension(ExtensionType.encrypt_then_mac):
             self._recordLayer.encryptThenMAC = True
 
-        if serverHello.getExtension(ExtensionType.extended_master_secret):
+        # the extended master secret is not defined (nor implemented in
+        # calc_key) for SSLv3
+        if serverHello.getExtension(ExtensionType.extended_master_secret) \
+                and self.version > (3, 0):
             self.extendedMasterSecret = True
 
         # If the server elected to resume the session, it is handled here.
